@@ -108,8 +108,16 @@ struct RefCfg {
     return false;
   }
   // earliest LOCAL instant strictly after local second L, or -1 when none within the horizon
+  // CRON_DM: the only candidate days are (year, mon, dom) for consecutive years; a date that does not exist (30 Feb) does not round-trip
+  int64_t dm_day(int year) const { int64_t d = days_from_civil(year, mon, dom); int y, m, dd; civil_from_days(d, y, m, dd); return (y == year && m == mon && dd == dom) ? d : INT64_MIN; }
   int64_t next_local(int64_t L) const {
     if (kind == CRON_HALFHOUR) return (fdiv(L, 1800) + 1) * 1800;
+    if (kind == CRON_DM) { int y, m, d; civil_from_days(fdiv(L, DAY), y, m, d);
+      for (int i = 0; i <= horizon_days / 366; i++) { int64_t dd = dm_day(y + i); if (dd != INT64_MIN && dd * DAY + sod > L) return dd * DAY + sod; }
+      return -1; }
+    return next_local_dayscan(L);
+  }
+  int64_t next_local_dayscan(int64_t L) const {
     int64_t day = fdiv(L, DAY);
     for (int i = 0; i < horizon_days; i++) { int64_t t = (day + i) * DAY + sod; if (t > L && day_matches(day + i)) return t; }
     return -1;
@@ -117,6 +125,9 @@ struct RefCfg {
   // latest LOCAL instant <= L (for attributing a callback to an instant), or -1
   int64_t prev_local(int64_t L) const {
     if (kind == CRON_HALFHOUR) return fdiv(L, 1800) * 1800;
+    if (kind == CRON_DM) { int y, m, d; civil_from_days(fdiv(L, DAY), y, m, d);
+      for (int i = 0; i <= horizon_days / 366; i++) { int64_t dd = dm_day(y - i); if (dd != INT64_MIN && dd * DAY + sod <= L) return dd * DAY + sod; }
+      return -1; }
     int64_t day = fdiv(L, DAY);
     for (int i = 0; i < horizon_days; i++) { int64_t t = (day - i) * DAY + sod; if (t <= L && day_matches(day - i)) return t; }
     return -1;
@@ -142,7 +153,9 @@ struct Sweep {
   explicit Sweep(const char *n) : name(n) { const char *e = getenv("VERIF_DEADLINE_S"); double d = e ? atof(e) : 600; deadline = real_now_s() + d;
     strncpy(hx::g_cur_tag, "C20-sweep", sizeof hx::g_cur_tag - 1); hx::set_current(std::string(n) + " (input sweep)"); watchdog((unsigned)d + 120); }
   // the replay text is only built for the (at most 3) occurrences of a signature that are printed
-  template <class F> void viol(const char *kind, const char *what, F &&replay) { viols++; std::string sig = std::string(kind) + what; uint64_t &n = sigs[sig]; if (++n <= 3) { std::string r = replay(); printf("@VIOL sig=%s :: %s\n", sig.c_str(), r.c_str()); fflush(stdout); } }
+  template <class F> void viol(const char *kind, const char *what, F &&replay) { viols++;
+    if (viols >= 200000 && !capped) { capped = true; printf("@CAP %s: stopped after %" PRIu64 " violations (flood)\n", name, viols); }
+    std::string sig = std::string(kind) + what; uint64_t &n = sigs[sig]; if (++n <= 3) { std::string r = replay(); printf("@VIOL sig=%s :: %s\n", sig.c_str(), r.c_str()); fflush(stdout); } }
   void viol(const std::string &sig, const std::string &replay) { viol(sig.c_str(), "", [&] { return replay; }); }
   void sample(const std::string &s) { if (samples++ < 2) printf("@SAMPLE %s: %s\n", name, s.c_str()); }
   bool expired() { if (!capped && real_now_s() > deadline) { capped = true; printf("@CAP %s: deadline reached after %" PRIu64 " evaluations\n", name, evals); } return capped; }
@@ -236,6 +249,7 @@ static int sweep_weekly_full(int part, int nparts, bool thorough) {
           if (ok && (int64_t)got == r) { sw.evals++; continue; }     // fast path; everything else goes through judge()
           if (!ok && r < 0) { sw.evals++; sw.notfound++; continue; }
           judge(sw, "weekly", ok, t, got, r, [&] { return fmt("weekly sod=%d mask=%s(bit0=Sun) tz=0 now_local=%" PRId64, sd.sod, mask_str(mask).c_str(), t); });
+          if (sw.capped) break;
         }
         // cross-check the fast list reference against the plain day-scan on a few points, and sample
         for (int64_t t : {base, base + 86399, base + WEEK - 1}) {
@@ -451,6 +465,7 @@ static int sweep_cron(int part, int nparts, bool thorough) {
       for (int64_t t : nows) {
         if ((sw.evals & 1023) == 0 && sw.expired()) break;
         int64_t r = c.ref.next_local(t);
+        if (c.ref.kind == RefCfg::CRON_DM && (t % 53) == 0 && r != c.ref.next_local_dayscan(t)) sw.viol("harness-reference-disagreement", fmt("cron %s t=%" PRId64, c.expr.c_str(), t));
         if (r >= DOMAIN_END || t >= DOMAIN_END) { sw.skipped++; continue; }     // next instant not representable in the 32-bit range
         if (r >= 0) { int y0, y1, m, d; civil_from_days(fdiv(t, DAY), y0, m, d); civil_from_days(fdiv(r, DAY), y1, m, d); if (y1 - y0 > 4) r = -1; }   // beyond CRON_MAX_YEARS_DIFF: "not found" is the accepted answer
         uint32_t got = 0; bool ok = a.calculateNextLocalTimeSec((uint32_t)t, got);
@@ -552,7 +567,7 @@ static int fire(const std::string &cfgname, size_t depth) {
     watchdog(30);
     if (!init_ok) viol = "alarm-initialize-rejected";
     // ---- reference model (property level)
-    bool m_enabled = false, m_synced = false; int64_t m_last_fired = -1, m_pending = -1; std::set<int64_t> m_fired; int m_fires_since_enable = 0, m_skew_ms = 0;
+    bool m_enabled = false, m_synced = false; int64_t m_last_fired = -1, m_pending = -1; std::set<int64_t> m_fired; int m_fires_since_enable = 0, m_skew_ms = 0; const char *m_rearmed_by = "";   // explicit re-arming op since the last callback
     const bool oneshot = cfg.alarm_kind == 1;
     auto ref_next = [&](int64_t now_sec) { return cfg.ref.next_utc(now_sec, tz); };
     // called whenever the alarm (re)arms: at wall clock `at_ms` the implementation armed for `target` with delay `delay_ms`
@@ -573,11 +588,11 @@ static int fire(const std::string &cfgname, size_t depth) {
       int64_t N = ref_next(now_sec); int64_t dist_ms = N < 0 ? DAY * 1000 : N * 1000 - g_wall_ms;
       switch (k) {
         case EN: { bool r = a.enable(); bool exp_ok = !m_enabled && N >= 0 && ref_next(std::max(now_sec, m_last_fired)) >= 0;
-          if (!m_enabled) { if (r) { m_enabled = true; m_fires_since_enable = 0; on_armed(g_wall_ms, a.target_utc_sec_, tev->interval_.count(), "enable"); } else if (exp_ok) viol = "alarm-enable-failed although a matching instant exists"; }
+          if (!m_enabled) { if (r) { m_enabled = true; m_fires_since_enable = 0; m_rearmed_by = "-after-reenable"; on_armed(g_wall_ms, a.target_utc_sec_, tev->interval_.count(), "enable"); } else if (exp_ok) viol = "alarm-enable-failed although a matching instant exists"; }
           else if (r) viol = "alarm-enable-returned-true-while-running";
         } break;
         case DIS: { bool r = a.disable(); if (r != m_enabled) viol = "alarm-disable-return-value"; m_enabled = false; } break;
-        case REF: { a.refresh(); if (m_enabled) { if (a.isEnabled()) on_armed(g_wall_ms, a.target_utc_sec_, tev->interval_.count(), "refresh");
+        case REF: { a.refresh(); if (m_enabled) { m_rearmed_by = "-after-refresh"; if (a.isEnabled()) on_armed(g_wall_ms, a.target_utc_sec_, tev->interval_.count(), "refresh");
                                                   else if (N < 0) m_enabled = false;   /* nothing left to wait for: refresh() leaves the alarm stopped */ } } break;
         case SKEW: g_mono_ms += 5; m_skew_ms += 5; break;
         case WPLUS: g_wall_ms += 3600000; m_synced = false; break;
@@ -602,7 +617,8 @@ static int fire(const std::string &cfgname, size_t depth) {
             int64_t att = (pv >= 0 && (nx < 0 || f.wall_ms - pv * 1000 <= nx * 1000 - f.wall_ms)) ? pv : nx;
             if (att < 0) { viol = fmt("alarm-fired-without-matching-instant at wall_ms=%" PRId64, f.wall_ms); break; }
             if (m_synced && f.wall_ms < att * 1000 - m_skew_ms) { viol = fmt("alarm-fired-before-instant at wall_ms=%" PRId64 ": nearest matching instant %" PRId64 " is still %.3f s (%.2f days) away, monotonic clock only %d ms ahead", f.wall_ms, att, (att * 1000 - f.wall_ms) / 1000.0, (att * 1000 - f.wall_ms) / 86400000.0, m_skew_ms); break; }
-            if (m_fired.count(att)) { viol = fmt("alarm-double-fire-same-instant instant=%" PRId64 " second callback at wall_ms=%" PRId64 " (monotonic ahead by %d ms)", att, f.wall_ms, m_skew_ms); break; }
+            if (m_fired.count(att)) { viol = fmt("alarm-double-fire-same-instant%s instant=%" PRId64 " second callback at wall_ms=%" PRId64 " (monotonic ahead by %d ms)", m_rearmed_by, att, f.wall_ms, m_skew_ms); break; }
+            m_rearmed_by = "";
             m_fired.insert(att); m_last_fired = std::max(m_last_fired, att); m_fires_since_enable++;
             if (oneshot) { m_enabled = false; if (f.running || f.timer_on) { viol = "oneshot-still-armed-in-callback"; break; } }
             else { if (!f.running || !f.timer_on) { if (ref_next(std::max(ws, m_last_fired)) >= 0) { viol = fmt("alarm-not-rearmed-after-fire at wall_ms=%" PRId64, f.wall_ms); break; } m_enabled = false; }
